@@ -4,15 +4,16 @@ PROP = dict(
     rule=("Entry points are discovered, not listed: every callable of the imath module and of every class in it whose Boost.Python signature "
           "(parsed from the docstring, one case per C++ overload) takes or returns a FixedArray / FixedArray2D / FixedMatrix. Arguments are built "
           "per declared type from a PRNG keyed by (seed, signature, argument kinds, length); every 1-D array argument is supplied plain and as a "
-          "masked reference (each position alone, and all together); lengths 3, 201, 333 (thorough: 1, 199, 200, 201, 202, 1000, 4096); in-place operators additionally with a masked left side and a right side of the unmasked length; the largest length additionally with data made of runs of four equal elements. Each "
+          "masked reference (each position alone, all together, and for three-array entry points every two together: all 2^3 accessor combinations); lengths 3, 201, 333 (thorough: 1, 199, 200, 201, 202, 1000, 4096); in-place operators additionally with a masked left side and a right side of the unmasked length; the largest length additionally with data made of runs of four equal elements. Each "
           "case is executed without a pool (baseline), then - for lengths above the 200-element dispatch threshold - under the test WorkerPool "
-          "(py/vpool.cpp, installed through WorkerPool::setCurrentPool) in three modes: shuffled sub-ranges on the calling thread (5/24 random or "
-          "adversarial partitions: one range, element-wise, tiny head/tail, empty ranges, reversed order), 4 real threads with a static range "
-          "assignment (2/8 runs) and the same with injected yields/sleeps (1/4 runs); result and all arguments must be bit-identical to the "
+          "(py/vpool.cpp, installed through WorkerPool::setCurrentPool; its workers() varies from plan to plan over 1, 2, 3, 4, 5, 7, 8, 16) in three modes: shuffled sub-ranges on the calling thread (5/24 random or "
+          "adversarial partitions: one range, element-wise, tiny head/tail, empty ranges, reversed order), real threads with a static range "
+          "assignment (2/8 runs; 2..8 threads) and the same with injected yields/sleeps (1/4 runs); result and all arguments must be bit-identical to the "
           "baseline (raw buffer bytes or recursive numeric extraction with floats compared as bit patterns). O2: on up to 40 positions per case the "
           "array result (or mutated first argument) is compared with the scalar binding of the same name applied to the i-th elements - exact, "
-          "or within 64 eps of the largest magnitude involved for floating point where different code paths legitimately round differently (counted as o2_within_tolerance); O2b: the same entry point applied to one-element arrays built from the i-th elements must give the i-th result exactly. O3: one "
-          "array argument one element too long must raise and leave every argument unchanged. distinct_nontrivial counts distinct (signature, "
+          "or within 64 eps of the largest magnitude involved for floating point where different code paths legitimately round differently (counted as o2_within_tolerance); O2b: the same entry point applied to one-element arrays built from the i-th elements must give the i-th result exactly. When the baseline raises, only the outcome (raise, exception class) is compared. O3: for every accessor "
+          "combination and every non-first array position an argument one element too long, one too short and - when another argument is a masked "
+          "reference - of the unmasked length must raise and leave every argument unchanged (in-place operators, where the last is a documented leniency, are modelled instead). distinct_nontrivial counts distinct (signature, "
           "argument kinds, length) cases above the threshold, i.e. those that ran under the pool. Second workload (c20_scalar.py): 67 scalar "
           "bindings (Vec2/3/4, Matrix33/44, Quat, Euler, Box3, Frustum, Line3, Plane3 methods and module functions, float and double) are called "
           "with random and boundary inputs and compared bit for bit with a C++ program (c20_cref.cpp) that calls the library of /repo's working "
